@@ -43,24 +43,47 @@ class LedgerGen:
         return self._sigs[k]
 
     # -- messages -------------------------------------------------------------------
-    def ui_msg(self, header=L.UI_HEADER, key="own", lenmod=0):
+    def ui_msg(self, header=L.UI_HEADER, key="own", lenmod=0, ud=None, iteration=None):
         pub = self.wallet[0].pub33 if key == "own" else self.alt_wallet.pub33
-        m = L.ui_message(header, self.ud_ui, pub, self.signer_hash_authorized, self.iteration)
+        m = L.ui_message(header, ud or self.ud_ui, pub, self.signer_hash_authorized,
+                         self.iteration if iteration is None else iteration)
         return self.resize(m, lenmod)
 
-    def signer_msg(self, fmt, header, lenmod=0, platform=b"led", keys_hash=None):
+    def signer_msg(self, fmt, header, lenmod=0, platform=b"led", keys_hash=None, fill=None,
+                   timestamp=None):
         kh = keys_hash or self.keys_hash
         if fmt == "legacy":
             m = L.legacy_message(header, kh)
         else:
             m = L.powhsm_message(header, platform, self.ud_signer, kh, self.best_block,
-                                 self.last_tx, self.timestamp)
-        return self.resize(m, lenmod)
+                                 self.last_tx, self.timestamp if timestamp is None else timestamp)
+        return self.resize(m, lenmod, fill)
 
-    def resize(self, m, lenmod):
+    def resize(self, m, lenmod, fill=None):
+        """lenmod < 0: cut; > 0: append ``fill`` (seeded filler bytes in front if shorter)"""
         if lenmod < 0:
             return m[:lenmod]
-        return m + self.filler[:lenmod]
+        fill = fill or b""
+        return m + self.filler[:lenmod - len(fill)] + fill[:lenmod] if lenmod else m
+
+    def edge_keysets(self, rng, edge_bytes):
+        """wallets (differing in the last key only) whose public-keys hash starts / ends with
+        each of ``edge_bytes``: name -> (wallet list, keys hash)"""
+        need = {("first", b) for b in edge_bytes} | {("last", b) for b in edge_bytes}
+        out = {"base": (self.wallet, self.keys_hash)}
+        tries = 0
+        while need:
+            tries += 1
+            if tries > 20000:
+                raise RuntimeError("edge_keysets: search does not terminate")
+            k = k1.Key.from_rng(rng)
+            w = self.wallet[:-1] + [k]
+            h = L.pubkeys_hash({p: x.pub65 for p, x in zip(L.PATHS, w)})
+            for pos, b in ((("first", h[0]), ("last", h[-1]))):
+                if (pos, b) in need:
+                    need.discard((pos, b))
+                    out["kh-%s-%02x" % (pos, b)] = (w, h)
+        return out
 
     # -- certificate ----------------------------------------------------------------
     def elements(self, chain, ui_msg, signer_msg):
@@ -121,21 +144,22 @@ class LedgerGen:
                               bytes.fromhex(e[target]["tweak"])))
 
 
-def pubkeys_variants(gen):
+def pubkeys_variants(gen, wallet=None):
     """name -> (file text | None for 'no such file', reference key map | None, open?)
     The key map is what the file means: path -> raw key bytes."""
     paths = L.PATHS
-    base = {p: k.pub65 for p, k in zip(paths, gen.wallet)}
+    wallet = wallet or gen.wallet
+    base = {p: k.pub65 for p, k in zip(paths, wallet)}
 
     def dump(items, enc=lambda p, b: b.hex()):
         return "{\n" + ",\n".join('  %s: "%s"' % (json.dumps(p), enc(p, b)) for p, b in items) + "\n}\n"
 
     out = {}
     out["same"] = (dump(base.items()), dict(base), False)
-    comp = {p: k.pub33 for p, k in zip(paths, gen.wallet)}
+    comp = {p: k.pub33 for p, k in zip(paths, wallet)}
     out["compressed"] = (dump(comp.items()), comp, False)
     out["reordered"] = (dump(list(base.items())[::-1]), dict(base), False)
-    mixed = {p: (k.pub33 if i % 2 else k.pub65) for i, (p, k) in enumerate(zip(paths, gen.wallet))}
+    mixed = {p: (k.pub33 if i % 2 else k.pub65) for i, (p, k) in enumerate(zip(paths, wallet))}
     order = [3, 0, 5, 1, 4, 2]
     out["mixed-shuffled"] = (dump([(paths[i], mixed[paths[i]]) for i in order]), mixed, False)
     out["uppercase-hex"] = (dump(base.items(), lambda p, b: b.hex().upper()), dict(base), False)
